@@ -35,9 +35,9 @@ SUB_NAMES = ["sub1", "s2", "work", "do_it"]
 OBJ_NAMES = ["obj", "p", "this"]
 COMP_NAMES = ["v", "w", "cnt", "nxt"]
 TYPE_NAMES = ["t1", "tt", "vec_t"]
-MOD_NAMES = ["m1", "mod_a", "util", "m_b"]
-UNIT_NAMES = ["prog", "main1", "calc", "unit_a", "solve", "init_x", "wrk", "helper", "fx", "gy"]
-CONSTRUCT_NAMES = ["nm", "outer", "lp1", "blk1", "sel"]
+MOD_NAMES = ["m1", "mod_a", "util", "m_b", "Mod_C"]
+UNIT_NAMES = ["prog", "main1", "calc", "unit_a", "solve", "init_x", "wrk", "helper", "fx", "gy", "Calc2", "MAIN_x", "doIt3"]
+CONSTRUCT_NAMES = ["nm", "outer", "lp1", "blk1", "sel", "Lp2", "OUTER2"]
 DEF_OPS = [".myop.", ".x.", ".plus.", ".inv."]
 
 INT_LITS = ["1", "2", "0", "10", "42", "3_8", "7_ik", "100"]
@@ -1230,7 +1230,11 @@ class Gen:
         targets, formats = [], []
 
         def new_label():
-            labels[0] += 10 if self.r.chance(70) else 1
+            c = self.r.n(0, 19)
+            jump = 10 if c < 13 else 1 if c < 18 else 990 if c == 18 else 9000
+            if labels[0] + jump > 99999:
+                jump = 1
+            labels[0] += jump
             return str(labels[0])
 
         def new_target():
